@@ -214,7 +214,7 @@ def gen_cases(rng, n):
             exp = {"year": dt.year, "month": dt.month, "day": dt.day, "dow": (dt.isoweekday() % 7) + 1}[f]
             name = {"dow": rng.choice(["dow", "dayofweek"])}.get(f, f)
             # the date may stand alone or inside other text (the documentation's own example is `year(name)`)
-            arg = rng.choice([q(d), q(d), q("report-%s.txt" % d), q("taken on %s" % d), q("%s_backup" % d), q("IMG %s 12" % d),
+            arg = rng.choice([q(d), q(d), d, d, q("report-%s.txt" % d), q("taken on %s" % d), q("%s_backup" % d), q("IMG %s 12" % d),
                               "concat('snapshot-', %s)" % q(d), "lower(%s)" % q("Scan %s.PDF" % d)])
             add("%s(%s)" % (name, arg), ("text", str(exp)), f)
         elif f == "compose":
